@@ -287,9 +287,12 @@ export class Ref {
       }
       for (const p of m.props) {
         const e = props.get(p.name);
-        if (!e) props.set(p.name, { name: p.name, ts: [p.t], opt: p.opt });
+        // a member that declares the key optional accepts null / undefined there (memberObj's rule);
+        // that must survive when another member makes the merged key required
+        const pt = p.opt ? { c: "union", ts: [p.t, { c: "nullish" }] } : p.t;
+        if (!e) props.set(p.name, { name: p.name, ts: [pt], opt: p.opt });
         else {
-          e.ts.push(p.t);
+          e.ts.push(pt);
           e.opt = e.opt && p.opt;
         }
       }
